@@ -1,1 +1,306 @@
--- property theorems of C10 (not built yet)
+/-
+  C10 — atmospheric composition is a valid mixture for every input.
+  Every `theorem` of this file is an audited obligation about the definitions of TaurexModel/Chemistry.lean
+  (the ones `driver_c10` executes on Float), here at the real carrier.
+  `column rows j` is the list of the layer-`j` values of all rows; `sumL` is Python's `sum`.
+-/
+import Proofs.C10Lemmas
+
+namespace Taurex.C10
+open Taurex.NpInterp Taurex.Chemistry
+
+/-- shape of an accepted mixture: one row per gas (fill gases first, then the trace rows unchanged), one value
+    per layer. -/
+theorem mix_rows (nFill : Nat) (ratios : List ℝ) (traces rows : List (List ℝ)) (n : Nat) (h1 : 1 ≤ nFill)
+    (hr : ∀ r ∈ traces, r.length = n) (hok : mixProfile nFill ratios traces n = .ok rows) :
+    rows.length = nFill + traces.length ∧ (∀ r ∈ rows, r.length = n) ∧ rows.drop nFill = traces := by
+  obtain ⟨hl, _, rfl⟩ := mixProfile_ok _ _ _ _ _ hok
+  have hfl := fill_length nFill ratios ((totalMix traces n).map (fun t => 1 - t)) h1 (fun hne => hl (by omega))
+  refine ⟨by rw [List.length_append, hfl], ?_, ?_⟩
+  · intro r hr'
+    rcases List.mem_append.1 hr' with h | h
+    · rw [fill_rows_length _ _ _ r h, List.length_map, totalMix_length _ _ hr]
+    · exact hr r h
+  · rw [List.drop_left' hfl]
+
+/-- the fill gases share exactly the remainder `1 − Σ traces` of every layer -/
+theorem fill_sum (nFill : Nat) (ratios : List ℝ) (traces rows : List (List ℝ)) (n : Nat) (h1 : 1 ≤ nFill)
+    (hr : ∀ r ∈ traces, r.length = n) (hratio : ∀ r ∈ ratios, 0 ≤ r)
+    (hok : mixProfile nFill ratios traces n = .ok rows) :
+    ∀ j, j < n → sumL (column (rows.take nFill) j) = 1 - sumL (column traces j) := by
+  obtain ⟨hl, _, rfl⟩ := mixProfile_ok _ _ _ _ _ hok
+  have hfl := fill_length nFill ratios ((totalMix traces n).map (fun t => 1 - t)) h1 (fun hne => hl (by omega))
+  intro j hj
+  rw [List.take_left' hfl, fill_column_sum _ _ _ _ (fun hne => hl (by omega))
+    (by have := sumL_nonneg _ hratio; linarith),
+    rem_getD _ _ (by rw [totalMix_length _ _ hr]; exact hj), totalMix_getD _ _ _ hj hr]
+
+/-- **the volume mixing ratios of every layer sum to one** -/
+theorem mix_sum_one (nFill : Nat) (ratios : List ℝ) (traces rows : List (List ℝ)) (n : Nat) (h1 : 1 ≤ nFill)
+    (hr : ∀ r ∈ traces, r.length = n) (hratio : ∀ r ∈ ratios, 0 ≤ r)
+    (hok : mixProfile nFill ratios traces n = .ok rows) :
+    ∀ j, j < n → sumL (column rows j) = 1 := by
+  intro j hj
+  have hfs := fill_sum nFill ratios traces rows n h1 hr hratio hok j hj
+  have hrows := (mix_rows nFill ratios traces rows n h1 hr hok).2.2
+  have : rows = rows.take nFill ++ traces := by rw [← hrows, List.take_append_drop]
+  rw [this, column_append, sumL_append, hfs]
+  ring
+
+/-- **an accepted mixture has no negative entry** (non-negative traces and ratios) -/
+theorem mix_nonneg (nFill : Nat) (ratios : List ℝ) (traces rows : List (List ℝ)) (n : Nat)
+    (hratio : ∀ r ∈ ratios, 0 ≤ r) (hnn : ∀ r ∈ traces, ∀ x ∈ r, 0 ≤ x)
+    (hok : mixProfile nFill ratios traces n = .ok rows) : ∀ r ∈ rows, ∀ x ∈ r, 0 ≤ x := by
+  obtain ⟨_, hle, rfl⟩ := mixProfile_ok _ _ _ _ _ hok
+  intro r hr'
+  rcases List.mem_append.1 hr' with h | h
+  · refine fill_nonneg nFill ratios _ hratio ?_ r h
+    intro x hx
+    simp only [List.mem_map] at hx
+    obtain ⟨t, ht, rfl⟩ := hx
+    linarith [hle t ht]
+  · exact hnn r h
+
+/-- **every further fill gas is exactly `ratio ×` the first fill gas** -/
+theorem fill_ratio (nFill : Nat) (ratios : List ℝ) (traces rows : List (List ℝ)) (n : Nat) (h2 : 2 ≤ nFill)
+    (hok : mixProfile nFill ratios traces n = .ok rows) :
+    ∀ k (hk : k < ratios.length), rows.getD (k + 1) [] = (rows.getD 0 []).map (fun m => ratios[k] * m) := by
+  obtain ⟨hl, _, rfl⟩ := mixProfile_ok _ _ _ _ _ hok
+  intro k hk
+  rw [fillAtmosphere_many nFill ratios _ (by omega) (hl (by omega))]
+  simp only [List.cons_append, List.getD_cons_zero, List.getD_cons_succ]
+  rw [getD_eq _ _ (by simp; omega)]
+  simp [List.getElem_append_left, hk]
+
+/-- **traces exceeding one anywhere ⇒ the model is rejected as invalid** (so, with `mix_nonneg`, a negative fill
+    is never produced) -/
+theorem exceed_rejected (nFill : Nat) (ratios : List ℝ) (traces : List (List ℝ)) (n : Nat)
+    (h : ∃ t ∈ totalMix traces n, 1 < t) : mixProfile nFill ratios traces n = .invalid := by
+  unfold mixProfile
+  simp only []
+  split_ifs with h1 h2
+  · rfl
+  · rfl
+  · exfalso
+    apply h2
+    rw [List.any_eq_true]
+    obtain ⟨t, ht, hlt⟩ := h
+    exact ⟨t, ht, by simpa using hlt⟩
+
+/-- conversely a total of at most one in every layer (exactly one included) is accepted -/
+theorem unity_accepted (nFill : Nat) (ratios : List ℝ) (traces : List (List ℝ)) (n : Nat)
+    (hl : 1 < nFill → ratios.length = nFill - 1) (h : ∀ t ∈ totalMix traces n, t ≤ 1) :
+    ∃ rows, mixProfile nFill ratios traces n = .ok rows := by
+  unfold mixProfile
+  simp only []
+  split_ifs with h1 h2
+  · exact absurd (hl h1.1) h1.2
+  · exfalso
+    rw [List.any_eq_true] at h2
+    obtain ⟨t, ht, hlt⟩ := h2
+    have := h t ht
+    simp only [decide_eq_true_eq] at hlt
+    linarith
+  · exact ⟨_, rfl⟩
+
+/-- **the mean molecular weight of layer `j` is the abundance-weighted sum of the molecular masses** -/
+theorem mu_weighted (mix : List (List ℝ)) (masses : List ℝ) (n : Nat) (hr : ∀ r ∈ mix, r.length = n) :
+    ∀ j, j < n → (muProfile mix masses n).getD j 0 =
+      sumL ((mix.zip masses).map (fun rm => rm.1.getD j 0 * rm.2)) :=
+  fun j hj => muProfile_getD mix masses n j hj hr
+
+/-- the molecules that count as absorbing: registered opacity data minus the `deactive_molecules` option -/
+theorem available_spec (registered : List String) (deactive : Option (List String)) (g : String) :
+    g ∈ availableActive registered deactive ↔ g ∈ registered ∧ ∀ d, deactive = some d → g ∉ d := by
+  cases deactive with
+  | none => simp [availableActive]
+  | some d => simp [availableActive, List.mem_filter]
+
+example : availableActive ["H2O", "CH4", "CO2"] (some ["CH4"]) = ["H2O", "CO2"] := by decide
+
+/-- **active and inactive gases partition the gas list** by availability, each in the original order, and the
+    masks point at exactly those gases -/
+theorem partition_perm (gases avail : List String) :
+    (activeGases gases avail ++ inactiveGases gases avail).Perm gases ∧
+    (activeGases gases avail).Sublist gases ∧ (inactiveGases gases avail).Sublist gases ∧
+    (∀ g, g ∈ activeGases gases avail ↔ g ∈ gases ∧ avail.contains g = true) ∧
+    (activeMask gases avail).map (fun i => gases.getD i "") = activeGases gases avail ∧
+    (inactiveMask gases avail).map (fun i => gases.getD i "") = inactiveGases gases avail := by
+  refine ⟨?_, List.filter_sublist, List.filter_sublist, ?_, ?_, ?_⟩
+  · exact List.filter_append_perm _ _
+  · intro g; simp [activeGases, List.mem_filter]
+  · have := maskFrom_map (fun g => avail.contains g) gases [] 0 rfl
+    simpa [activeMask, activeGases] using this
+  · have := maskFrom_map (fun g => !avail.contains g) gases [] 0 rfl
+    simpa [inactiveMask, inactiveGases] using this
+
+/-- **`get_gas_mix_profile(g)` is the row of `g` in `mixProfile`** (row index = position of `g` in the gas list)
+    and a `KeyError` exactly for unknown names -/
+theorem lookup_row {β : Type} (gases avail : List String) (mix : List (List β)) (g : String) :
+    (g ∈ gases → getGasMixProfile gases avail mix g = some (mix.getD (gases.idxOf g) [])) ∧
+    (g ∉ gases → getGasMixProfile gases avail mix g = none) := by
+  constructor
+  · intro hg
+    unfold getGasMixProfile
+    simp only []
+    by_cases ha : avail.contains g = true
+    · have hmem : g ∈ activeGases gases avail := List.mem_filter.2 ⟨hg, ha⟩
+      rw [if_pos (by simpa using hmem)]
+      rw [selectRows_getD _ _ _ (by
+        rw [activeMask, maskFrom_length]; exact List.idxOf_lt_length_of_mem hmem)]
+      rw [activeMask, activeGases, maskFrom_idxOf (fun g => avail.contains g) g ha gases 0 hg, Nat.zero_add]
+    · have hmem : g ∈ inactiveGases gases avail := List.mem_filter.2 ⟨hg, by simpa using ha⟩
+      have hnot : g ∉ activeGases gases avail := fun h => ha (List.mem_filter.1 h).2
+      rw [if_neg (by simpa using hnot), if_pos (by simpa using hmem)]
+      rw [selectRows_getD _ _ _ (by
+        rw [inactiveMask, maskFrom_length]; exact List.idxOf_lt_length_of_mem hmem)]
+      rw [inactiveMask, inactiveGases, maskFrom_idxOf (fun g => !avail.contains g) g (by simpa using ha) gases 0 hg,
+        Nat.zero_add]
+  · intro hg
+    unfold getGasMixProfile
+    simp only []
+    have h1 : g ∉ activeGases gases avail := fun h => hg (List.mem_filter.1 h).1
+    have h2 : g ∉ inactiveGases gases avail := fun h => hg (List.mem_filter.1 h).1
+    rw [if_neg (by simpa using h1), if_neg (by simpa using h2)]
+
+/-! ### non-vacuity of the mixture theorems: 3 fill gases (ratios 1/2, 1/4) + 2 traces whose total is exactly
+    one in the bottom layer and 3/8 in the top layer -/
+
+example : (1 ≤ 3) ∧ (∀ r ∈ [[(1 / 2 : ℝ), 1 / 4], [1 / 2, 1 / 8]], r.length = 2) ∧
+    (∀ r ∈ [(1 / 2 : ℝ), 1 / 4], 0 ≤ r) ∧ (∀ r ∈ [[(1 / 2 : ℝ), 1 / 4], [1 / 2, 1 / 8]], ∀ x ∈ r, 0 ≤ x) ∧
+    (∃ rows, mixProfile 3 [(1 / 2 : ℝ), 1 / 4] [[1 / 2, 1 / 4], [1 / 2, 1 / 8]] 2 = .ok rows) ∧
+    totalMix [[(1 / 2 : ℝ), 1 / 4], [1 / 2, 1 / 8]] 2 = [1, 3 / 8] := by
+  have ht : totalMix [[(1 / 2 : ℝ), 1 / 4], [1 / 2, 1 / 8]] 2 = [1, 3 / 8] := by
+    simp [totalMix, List.replicate]; norm_num
+  refine ⟨by norm_num, ?_, ?_, ?_, ?_, ht⟩
+  · intro r hr; simp at hr; rcases hr with rfl | rfl <;> rfl
+  · intro r hr; simp at hr; rcases hr with rfl | rfl <;> norm_num
+  · intro r hr x hx; simp at hr; rcases hr with rfl | rfl <;> simp at hx <;> rcases hx with rfl | rfl <;> norm_num
+  · apply unity_accepted
+    · intro _; rfl
+    · rw [ht]; intro t h; simp at h; rcases h with rfl | rfl <;> norm_num
+
+/- the rejecting side: the same traces with the first one raised to 9/16 exceed one in the bottom layer -/
+example : ∃ t ∈ totalMix [[(9 / 16 : ℝ), 1 / 4], [1 / 2, 1 / 8]] 2, 1 < t := by
+  refine ⟨17 / 16, ?_, by norm_num⟩
+  simp [totalMix, List.replicate]; norm_num
+
+example : (activeGases ["H2", "He", "H2O", "CH4"] ["CH4", "H2O", "CO2"] = ["H2O", "CH4"]) ∧
+    (inactiveGases ["H2", "He", "H2O", "CH4"] ["CH4", "H2O", "CO2"] = ["H2", "He"]) ∧
+    (activeMask ["H2", "He", "H2O", "CH4"] ["CH4", "H2O", "CO2"] = [2, 3]) := by decide
+
+/-! ### the built-in abundance profiles -/
+
+/-- ConstantGas: one value per layer, each equal to the control value -/
+theorem constant_len (mix : ℝ) (n : Nat) : (constantGas mix n).length = n ∧ ∀ v ∈ constantGas mix n, v = mix :=
+  constantGas_spec mix n
+
+example : constantGas (1 / 1000 : ℝ) 2 = [1 / 1000 * 1, 1 / 1000 * 1] := rfl
+
+/-- TwoPointGas: one value per layer, each between the two control abundances.  Guards: positive control values
+    (`0 < lo`), top pressure positive and strictly below the surface pressure (`n ≥ 2` layers), every layer pressure
+    between them. -/
+theorem twoPoint_between (surf top lo hi : ℝ) (pressure : List ℝ) (hlo : 0 < lo)
+    (hs : lo ≤ surf ∧ surf ≤ hi) (ht : lo ≤ top ∧ top ≤ hi)
+    (hpos : 0 < pressure.getD (pressure.length - 1) 0)
+    (hlt : pressure.getD (pressure.length - 1) 0 < pressure.getD 0 0)
+    (hp : ∀ p ∈ pressure, pressure.getD (pressure.length - 1) 0 ≤ p ∧ p ≤ pressure.getD 0 0) :
+    (twoPointGas surf top pressure).length = pressure.length ∧
+      ∀ v ∈ twoPointGas surf top pressure, lo ≤ v ∧ v ≤ hi :=
+  ⟨twoPointGas_length _ _ _, twoPointGas_within surf top pressure hlo hs ht hpos hlt hp⟩
+
+example : (0 : ℝ) < [(100 : ℝ), 10, 1].getD ([(100 : ℝ), 10, 1].length - 1) 0 ∧
+    [(100 : ℝ), 10, 1].getD ([(100 : ℝ), 10, 1].length - 1) 0 < [(100 : ℝ), 10, 1].getD 0 0 ∧
+    (∀ p ∈ [(100 : ℝ), 10, 1], [(100 : ℝ), 10, 1].getD ([(100 : ℝ), 10, 1].length - 1) 0 ≤ p ∧
+      p ≤ [(100 : ℝ), 10, 1].getD 0 0) := by
+  simp; norm_num
+
+/-- ArrayGas: one value per layer for any layer count, each inside the range of the tabulated abundances -/
+theorem array_between (arr : List ℝ) (n : Nat) (lo hi : ℝ) (hne : 0 < arr.length)
+    (h : ∀ x ∈ arr, lo ≤ x ∧ x ≤ hi) :
+    (arrayGas arr n).length = n ∧ ∀ v ∈ arrayGas arr n, lo ≤ v ∧ v ≤ hi :=
+  ⟨arrayGas_length arr n, arrayGas_within arr n hne h⟩
+
+example : 0 < [(1 / 100 : ℝ), 1 / 1000000].length ∧
+    ∀ x ∈ [(1 / 100 : ℝ), 1 / 1000000], (1 / 1000000 : ℝ) ≤ x ∧ x ≤ 1 / 100 := by
+  refine ⟨by simp, ?_⟩
+  intro x hx; simp at hx; rcases hx with rfl | rfl <;> norm_num
+
+/-- PowerGas: positive and at most the deep-atmosphere abundance `mix_ratio_surface`
+    (`(1/√A₀ + 1/√A_d)⁻² ≤ A₀`), one value per layer -/
+theorem power_le_surface (ms alpha beta gamma bf : ℝ) (pressure temperature : List ℝ) (h0 : 0 < ms) :
+    (powerGas ms alpha beta gamma bf pressure temperature).length = min pressure.length temperature.length ∧
+      ∀ v ∈ powerGas ms alpha beta gamma bf pressure temperature, 0 < v ∧ v ≤ ms :=
+  ⟨powerGas_length _ _ _ _ _ _ _, powerGas_within ms alpha beta gamma bf pressure temperature h0⟩
+
+example : (0 : ℝ) < 1 / 1000 := by norm_num
+
+/-- TwoLayerGas (current code: integer odd window ≥ 1, empty border allowed): whenever a profile is returned,
+    smoothing included, every abundance lies between the two control abundances.  Guards: positive control
+    values, positive non-increasing pressure grid, non-negative window. -/
+theorem twoLayer_between (surf top pb w lo hi : ℝ) (n : Nat) (pressure row : List ℝ) (hlo : 0 < lo)
+    (hs : lo ≤ surf ∧ surf ≤ hi) (ht : lo ≤ top ∧ top ≤ hi) (hn : n = pressure.length) (hw : 0 ≤ w)
+    (hpos : ∀ x ∈ pressure, 0 < x) (hsorted : pressure.Pairwise (fun a b => b ≤ a))
+    (hok : twoLayerGas surf top pb w n pressure = .ok row) : ∀ v ∈ row, lo ≤ v ∧ v ≤ hi :=
+  twoLayerGas_within surf top pb w n pressure row hlo hs ht hn hw hpos hsorted hok
+
+example : (∀ x ∈ [(100 : ℝ), 10, 1], 0 < x) ∧ [(100 : ℝ), 10, 1].Pairwise (fun a b => b ≤ a) := by
+  refine ⟨?_, ?_⟩
+  · intro x hx; simp at hx; rcases hx with rfl | rfl | rfl <;> norm_num
+  · simp; norm_num
+
+/-- **every built-in profile yields exactly one value per layer for every layer count** (in particular
+    TwoLayerGas with any percentage window and 10, 25, 45 … layers never fails) and none of them is negative. -/
+theorem profile_len (g : Gas ℝ) (n : Nat) (pressure temperature : List ℝ) (hadm : g.Admissible)
+    (hn : n = pressure.length) (hT : n = temperature.length) :
+    ∃ row, g.profile n pressure temperature = .ok row ∧ row.length = n ∧ ∀ x ∈ row, 0 ≤ x := by
+  obtain ⟨row, hrow⟩ := profile_ok g n pressure temperature hadm hn
+  exact ⟨row, hrow, profile_length g n pressure temperature row hn hT hrow,
+    profile_nonneg g n pressure temperature row hadm hrow⟩
+
+example : (Gas.twoLayer (1 / 10000 : ℝ) (1 / 100000000) 1000 10).Admissible := by
+  simp only [Gas.Admissible]; norm_num
+
+/-- **end to end**: a `TaurexChemistry` over admissible gases never fails; it is either rejected as invalid or
+    returns one row per gas whose layers are non-negative and sum to one. -/
+theorem chemistry_valid (nFill : Nat) (ratios : List ℝ) (gases : List (Gas ℝ)) (n : Nat)
+    (pressure temperature : List ℝ) (h1 : 1 ≤ nFill) (hratio : ∀ r ∈ ratios, 0 ≤ r)
+    (hadm : ∀ g ∈ gases, g.Admissible) (hn : n = pressure.length) (hT : n = temperature.length) :
+    chemistry nFill ratios gases n pressure temperature = .invalid ∨
+    ∃ rows, chemistry nFill ratios gases n pressure temperature = .ok rows ∧
+      rows.length = nFill + gases.length ∧ (∀ r ∈ rows, r.length = n) ∧
+      (∀ r ∈ rows, ∀ x ∈ r, 0 ≤ x) ∧ ∀ j, j < n → sumL (column rows j) = 1 := by
+  unfold chemistry
+  split_ifs with hc
+  · exact Or.inl rfl
+  obtain ⟨traces, htr⟩ := traceProfiles_total n pressure temperature gases
+    (fun g hg => profile_ok g n pressure temperature (hadm g hg) hn)
+  rw [htr]
+  simp only []
+  have hf := traceProfiles_ok n pressure temperature gases traces htr
+  have hlen : ∀ r ∈ traces, r.length = n := by
+    intro r hr
+    obtain ⟨g, _, hg⟩ := forall₂_mem_right hf r hr
+    exact profile_length g n pressure temperature r hn hT hg
+  have hnn : ∀ r ∈ traces, ∀ x ∈ r, 0 ≤ x := by
+    intro r hr
+    obtain ⟨g, hgm, hg⟩ := forall₂_mem_right hf r hr
+    exact profile_nonneg g n pressure temperature r (hadm g hgm) hg
+  cases hm : mixProfile nFill ratios traces n with
+  | invalid => exact Or.inl rfl
+  | error =>
+    exfalso
+    unfold mixProfile at hm
+    simp only [] at hm
+    split_ifs at hm
+  | ok rows =>
+    refine Or.inr ⟨rows, rfl, ?_, (mix_rows nFill ratios traces rows n h1 hlen hm).2.1,
+      mix_nonneg nFill ratios traces rows n hratio hnn hm, mix_sum_one nFill ratios traces rows n h1 hlen hratio hm⟩
+    rw [(mix_rows nFill ratios traces rows n h1 hlen hm).1, hf.length_eq]
+
+example : ∀ g ∈ [Gas.constant (1 / 1000 : ℝ), Gas.twoPoint (1 / 10000) (1 / 100000000)], g.Admissible := by
+  intro g hg
+  simp at hg
+  rcases hg with rfl | rfl <;> simp only [Gas.Admissible] <;> norm_num
+
+end Taurex.C10
